@@ -36,8 +36,8 @@ OFF = {"int_truediv", "pow", "str_lit_plus_lit", "try", "loop_first_assign", "un
        "list_elem_assign", "helper_uses_late_helpers", "macro_effectful_arg", "for_bound_mutated"}
 PROFILE = gs.Profile(name="compile", devices=0.8, loop_decl=0.35, hostile_strings=True, off=OFF, max_stmts=10, helpers=3)
 
-SETUP_RE = re.compile(r"\bvoid\s+setup\s*\(\s*\)\s*\{")
-LOOP_RE = re.compile(r"\bvoid\s+loop\s*\(\s*\)\s*\{")
+SETUP_RE = re.compile(r"\bvoid\s+setup\s*\([^;{]*\)\s*\{")
+LOOP_RE = re.compile(r"\bvoid\s+loop\s*\([^;{]*\)\s*\{")
 
 
 def strip_literals(cpp):
